@@ -4,6 +4,7 @@ Differential: the same call list is executed (i) as a batch on object X and (ii)
 an identical fresh object Y of the same daemon (so unexposed and private names reach the server gate exactly as they do
 inside a batch). Compared: result lists up to the first failure, the failure (class, args; at its position or at
 submission), and dump() of both objects afterwards. Oneway batches: None, then dump() over the same connection."""
+import threading
 import time
 
 from vlib import core, gen, fixture
@@ -16,7 +17,7 @@ RULE = ("call lists of length 0..12 over a stateful reference object (counter, l
         "(call list, mode, serializer, server); non-trivial = list has >= 2 calls")
 ASSUMPTIONS = ["oneway-marked methods and iterator-returning methods are not batched (documented as unsupported)",
                "an exposure failure may surface at submission instead of at its position (the statement allows both)"]
-REQUIRED_REACH = ["shards_with_translating_error_handler", "deferred_result_reading", "copied_batchproxy_equal", "impatient_batch_state_equal", "batch_equal", "failure_at_position", "failure_at_submit", "oneway_equal", "state_compared", "reused_batchproxy_equal", "forgotten_oneway_batch_equal", "long_batches"]
+REQUIRED_REACH = ["batches_submitted_by_other_thread", "shards_with_translating_error_handler", "deferred_result_reading", "copied_batchproxy_equal", "impatient_batch_state_equal", "batch_equal", "failure_at_position", "failure_at_submit", "oneway_equal", "state_compared", "reused_batchproxy_equal", "forgotten_oneway_batch_equal", "long_batches"]
 SHARD_TIMEOUT = {"quick": 200, "thorough": 2400}
 
 
@@ -368,18 +369,36 @@ def alias_probe(fx, Ref, sername, rec, n):
         rec.count("alias_probe_equal")
 
 
-def check_case(fx, Ref, calls, oneway, sername, rec, n):
+def check_case(fx, Ref, calls, oneway, sername, rec, n, other_thread=False):
     P = fx.P
     idx, idy = "x%d" % n, "y%d" % n
-    X, Y = Ref(), Ref()
+    if other_thread:
+        # two features at once: the object is the per-connection instance of a class registered in (the default) session mode, and the batch
+        # is submitted by another thread than the one the proxy belongs to (submitting hands the proxy over, as every call does)
+        X, Y = type("RefS", (Ref,), {}), type("RefS", (Ref,), {})      # (same name: error texts mention it)
+        rec.count("batches_submitted_by_other_thread")
+    else:
+        X, Y = Ref(), Ref()
     fx.daemon.register(X, idx)
     fx.daemon.register(Y, idy)
-    pay = {"calls": calls, "oneway": oneway, "serializer": sername, "servertype": fx.servertype}
+    pay = {"calls": calls, "oneway": oneway, "serializer": sername, "servertype": fx.servertype, "other_thread": other_thread}
     rec.case((repr(calls), oneway, sername, fx.servertype), nontrivial=len(calls) >= 2, sample=pay if rec.evaluations % 300 == 5 else None)
     try:
         with fx.proxy(idx, serializer=sername) as px, fx.proxy(idy, serializer=sername) as py:
             sres, sexc = run_sequential(P, py, calls)
-            bres, bexc, where, ret = run_batch(P, px, calls, oneway)
+            if other_thread:
+                px._pyroBind()
+                box = []
+                t = threading.Thread(target=lambda: box.append(run_batch(P, px, calls, oneway)), daemon=True)
+                t.start()
+                t.join(60)
+                if not box:
+                    rec.inconc("batch submitted from another thread did not return within the watchdog")
+                    return
+                bres, bexc, where, ret = box[0]
+                px._pyroClaimOwnership()
+            else:
+                bres, bexc, where, ret = run_batch(P, px, calls, oneway)
             dumpx = px._pyroInvoke("dump", (), {})      # same connection as the batch
             dumpy = py._pyroInvoke("dump", (), {})
     except Exception as x:
@@ -609,7 +628,7 @@ def run_shard(shard, rec):
                     break
                 calls = gen_calls(r, length, fail_at)
                 n += 1
-                check_case(fx, Ref, calls, r.random() < 0.3, shard["serializer"], rec, n)
+                check_case(fx, Ref, calls, r.random() < 0.3, shard["serializer"], rec, n, other_thread=n % 6 == 0)
                 if r.random() < 0.12:
                     n += 1
                     check_forget(fx, Ref, [("slow", (r.choice([0.01, 0.04]),), {})] + calls, shard["serializer"], rec, n)
@@ -654,6 +673,6 @@ def replay(payload, rec):
         elif payload.get("forget"):
             check_forget(fx, Ref, payload["calls"], payload["serializer"], rec, 1)
         else:
-            check_case(fx, Ref, payload["calls"], payload["oneway"], payload["serializer"], rec, 1)
+            check_case(fx, Ref, payload["calls"], payload["oneway"], payload["serializer"], rec, 1, other_thread=payload.get("other_thread", False))
     finally:
         fx.stop()
